@@ -171,23 +171,31 @@ pub fn run(ctx: &mut Ctx) {
                                 })
                             })
                             .collect();
-                        let class = if deriving.iter().any(|c| c.body.iter().any(|l| matches!(l, refdl::Lit::Pos(a) | refdl::Lit::Neg(a) if derived.contains(&a.rel)))) {
-                            "body-over-derived-relation"
-                        } else if deriving.iter().all(|c| c.body.iter().any(|l| matches!(l, refdl::Lit::Assign(..)))) {
-                            "computed-column-clause"
-                        } else if deriving.iter().all(|c| c.body.iter().filter(|l| matches!(l, refdl::Lit::Pos(_))).count() >= 2) {
-                            "multi-atom-body-needs-backtracking"
-                        } else if deriving.iter().all(|c| {
-                            // one atom whose variables the head does not all fix, followed by a comparison: the first
-                            // matching tuple may fail the comparison while a later one passes
+                        // per deriving clause: which known why-not limitation (if any) explains that it was blocked
+                        let clause_class = |c: &Clause| -> &'static str {
                             let head_vars: BTreeSet<&str> = c.hargs.iter().filter_map(|h| if let HeadArg::T(Term::Var(v)) = h { Some(v.as_str()) } else { None }).collect();
-                            c.body.iter().any(|l| matches!(l, refdl::Lit::Cmp(..)))
-                                && c.body.iter().any(|l| matches!(l, refdl::Lit::Pos(a) if a.args.iter().any(|x| matches!(x, Term::Var(v) if !head_vars.contains(v.as_str())))))
-                        }) {
-                            "single-atom-body-with-comparison-needs-backtracking"
-                        } else {
-                            "single-atom-body-over-base-relation"
+                            let free_atom = c.body.iter().any(|l| matches!(l, refdl::Lit::Pos(a) if a.args.iter().any(|x| matches!(x, Term::Var(v) if !head_vars.contains(v.as_str())))));
+                            if c.body.iter().any(|l| matches!(l, refdl::Lit::Pos(a) | refdl::Lit::Neg(a) if derived.contains(&a.rel))) {
+                                "body-over-derived-relation"
+                            } else if c.body.iter().any(|l| matches!(l, refdl::Lit::Assign(..))) {
+                                "computed-column-clause"
+                            } else if c.body.iter().filter(|l| matches!(l, refdl::Lit::Pos(_))).count() >= 2 {
+                                "multi-atom-body-needs-backtracking"
+                            } else if free_atom && c.body.iter().any(|l| matches!(l, refdl::Lit::Cmp(..))) {
+                                // one atom whose variables the head does not all fix, followed by a comparison: the
+                                // first matching tuple may fail the comparison while a later one passes
+                                "single-atom-body-with-comparison-needs-backtracking"
+                            } else if free_atom && c.body.iter().any(|l| matches!(l, refdl::Lit::Neg(..))) {
+                                "single-atom-body-with-negation-needs-backtracking"
+                            } else {
+                                "single-atom-body-over-base-relation"
+                            }
                         };
+                        let classes: Vec<&'static str> = deriving.iter().map(|c| clause_class(c)).collect();
+                        // a deriving clause that no known limitation explains decides the class; otherwise the
+                        // limitation with the highest precedence among the deriving clauses names it
+                        let order = ["single-atom-body-over-base-relation", "body-over-derived-relation", "computed-column-clause", "multi-atom-body-needs-backtracking", "single-atom-body-with-comparison-needs-backtracking", "single-atom-body-with-negation-needs-backtracking"];
+                        let class = order.iter().copied().find(|o| classes.contains(o)).unwrap_or("single-atom-body-over-base-relation");
                         ctx.violation(k, &format!("C23:derived-tuple-all-clauses-blocked:{class}"), format!("{rel}{t:?} is derivable but `{q}` reports a blocker for every clause"), wit(json!({})));
                     }
                     continue;
